@@ -8,6 +8,7 @@ A contract is a python object with
     replay(values)           -> (ok: bool, detail: str) | None   native re-execution of a counter-model
 """
 import time
+import os
 import traceback
 import z3
 
@@ -21,6 +22,7 @@ class Contract:
     relpath = ''
     qualname = ''
     strings = False
+    frame_fields = ()       # (class name, attribute): concrete attributes of pre-existing objects the postcondition describes
 
     def setup(self, it, ctx):
         raise NotImplementedError
@@ -72,6 +74,8 @@ class Prover:
             holder['st'] = st
             holder['ctx'] = ctx
             st_ref = st
+            from .values import tick
+            ctx.t_setup = tick()
             try:
                 res = c.execute(it, fv, args, kwargs) if hasattr(c, 'execute') else it.call_function(fv, args, kwargs, force_inline=True)
             except PyRaise as r:
@@ -100,6 +104,17 @@ class Prover:
             it.ctx = ctx
             if out[0] == 'unsupported':
                 self.report.add_obligation(f'{self.prop}/{label}/vcgen/path{k}', c.qualname, 'undecided', 'pyvc', 0.0, 'UNSUPPORTED ' + out[1])
+                continue
+            # frame clause of every contract (rule R4 is only sound with it): an attribute of an object that exists
+            # before the call may be assigned only if the contract describes it - it holds an abstract model (the
+            # circuit heap) or the contract lists it in `frame_fields`; a new or undescribed attribute is state that
+            # callers reasoning by this contract would not see change
+            alien = sorted({(cn, f) for (cn, f, was_model, existed) in ctx.field_writes
+                            if not was_model and (cn, f) not in getattr(c, 'frame_fields', ())})
+            if alien:
+                self.report.add_obligation(f'{self.prop}/{label}/frame/path{k}', c.qualname, 'undecided', 'pyvc', 0.0,
+                                           'UNSUPPORTED frame clause: the function assigns ' + ', '.join(f'{cn}.{f}' for cn, f in alien) +
+                                           ' on an object that exists before the call; the contract does not describe that attribute')
                 continue
             oc = getattr(ctx, '_outcome', None)
             if oc is None:
